@@ -6,6 +6,11 @@ package main
 //        mr<r>,<m>  replica node r now replicates master m (CLUSTER REPLICATE); the slots stay where they are
 //        w          two refresh rounds of the routing table complete (the table is current afterwards)
 //        g<hexkey>  GET      s<hexkey>  SET key v
+//        d<m> / u<m> master m stops / listens again (its replicas stay up; the table keeps naming it as the owner)
+//        k<n>       the established connections of node n are reset
+//        L          load: four connections write 300 fresh keys each at the same time (while the table is being refreshed)
+//   mode c14e2et: no periodic refresh (w does nothing): the table follows redirections only; a request that is redirected
+//   waits for the refresh it triggered, so between two changes at most one request may be sent to a wrong node first
 //   every request follows a w after the last change, so the table the proxy routes by is the layout of that moment.
 //   output per request: <reply>@<tag>  tag: M = first sent to the master owning the slot, R = to a replica of that
 //   master, X<node> = to a node that neither owns the slot nor replicates its owner
@@ -15,12 +20,14 @@ import (
 	"fmt"
 	"strconv"
 	"strings"
+	"sync"
+	"sync/atomic"
 	"time"
 
 	"github.com/samaritan-proxy/samaritan/proc/redis"
 )
 
-func runC14e2e(line string) string {
+func runC14e2e(line string, triggered bool) string {
 	loadFactor = measureLoad()
 	hd := strings.SplitN(line, " # ", 2)
 	f := strings.Fields(hd[0])
@@ -49,8 +56,13 @@ func runC14e2e(line string) string {
 		}
 		ops = ops[1:]
 	}
-	// a periodic refresh every 40 ms: the table follows the layout without any redirection
-	simTimersOnce.Do(func() { redis.VerifSetSlotsRefresh(40*time.Millisecond, 10*time.Millisecond) })
+	// a periodic refresh every 40 ms: the table follows the layout without any redirection (mode c14e2et: none, the
+	// table follows redirections only)
+	if triggered {
+		simTimersOnce.Do(func() { redis.VerifSetSlotsRefresh(time.Hour, 10*time.Millisecond) })
+	} else {
+		simTimersOnce.Do(func() { redis.VerifSetSlotsRefresh(40*time.Millisecond, 10*time.Millisecond) })
+	}
 	sp := startRedisProxy(seeds, int32(strategy))
 	defer stopProxy(sp)
 	if !sp.waitSlotsLoaded(1) {
@@ -78,8 +90,33 @@ func runC14e2e(line string) string {
 			}
 			cl.mu.Unlock()
 		case 'w':
+			if triggered {
+				break
+			}
 			before := sp.counter("upstream.slots_refresh.success_total")
 			waitFor(3*time.Second, func() bool { return sp.counter("upstream.slots_refresh.success_total") >= before+2 })
+		case 'd', 'u':
+			m, _ := strconv.Atoi(op[1:])
+			if m < n {
+				if op[0] == 'd' && cl.nodes[m].up {
+					cl.nodes[m].stop()
+				}
+				if op[0] == 'u' && !cl.nodes[m].up {
+					cl.nodes[m].start()
+				}
+				settle(40 * time.Millisecond)
+			}
+		case 'k':
+			m, _ := strconv.Atoi(op[1:])
+			cl.mu.Lock()
+			ok := m < len(cl.nodes)
+			cl.mu.Unlock()
+			if ok {
+				cl.nodes[m].killConns()
+				settle(60 * time.Millisecond)
+			}
+		case 'L':
+			outs = append(outs, c14Load(cl, sp))
 		case 'g', 's':
 			key, _ := hex.DecodeString(op[1:])
 			v := bulkArr([]byte("get"), key)
@@ -90,9 +127,32 @@ func runC14e2e(line string) string {
 			for _, nd := range cl.nodes {
 				nd.log = nil
 			}
+			mv0 := cl.moved
 			cl.mu.Unlock()
+			refreshed0 := sp.counter("upstream.slots_refresh.success_total")
 			sc.send(v.bytes(), nil)
 			r, err := sc.recv(4 * time.Second)
+			if triggered {
+				cl.mu.Lock()
+				redirected := cl.moved > mv0
+				cl.mu.Unlock()
+				if redirected {
+					waitFor(2*time.Second, func() bool { return sp.counter("upstream.slots_refresh.success_total") > refreshed0 })
+					settle(20 * time.Millisecond)
+				}
+			}
+			// "backend exited" is the answer while a lost connection has not yet removed itself from the table (a matter
+			// of scheduling): give it more time and ask again - a proxy that never reconnects keeps answering it
+			for try := 0; try < 5 && err == nil && r.t == '-' && strings.Contains(string(r.s), "backend exited"); try++ {
+				settle(60 * time.Millisecond)
+				cl.mu.Lock()
+				for _, nd := range cl.nodes {
+					nd.log = nil
+				}
+				cl.mu.Unlock()
+				sc.send(v.bytes(), nil)
+				r, err = sc.recv(4 * time.Second)
+			}
 			if err != nil {
 				outs = append(outs, "TIMEOUT")
 				continue
@@ -125,13 +185,75 @@ func runC14e2e(line string) string {
 	return strings.Join(outs, " ")
 }
 
+// c14Load: four connections write fresh keys at the same time; every command's first hop must be its slot's owner
+func c14Load(cl *simCluster, sp *simProxy) string {
+	cl.mu.Lock()
+	for _, nd := range cl.nodes {
+		nd.log = nil
+	}
+	cl.mu.Unlock()
+	c14LoadSeq++
+	var wg sync.WaitGroup
+	bad := int32(0)
+	for w := 0; w < 4; w++ {
+		wg.Add(1)
+		go func(w int) {
+			defer wg.Done()
+			c := dialProxy(sp.addr)
+			defer c.close()
+			for i := 0; i < 300; i++ {
+				k := []byte(fmt.Sprintf("load%d_%d_%d", c14LoadSeq, w, i))
+				c.send(bulkArr([]byte("set"), k, []byte("v")).bytes(), nil)
+				if r, err := c.recv(4 * time.Second); err != nil || r.t == '-' {
+					atomic.AddInt32(&bad, 1)
+				}
+			}
+		}(w)
+	}
+	wg.Wait()
+	cl.mu.Lock()
+	defer cl.mu.Unlock()
+	type hop struct{ node, seq int }
+	first := map[string]hop{}
+	for _, nd := range cl.nodes {
+		for _, e := range nd.log {
+			if e.result == "exec" || e.result == "moved" || e.result == "ask" {
+				if h, ok := first[e.cmd]; !ok || e.seq < h.seq {
+					first[e.cmd] = hop{nd.idx, e.seq}
+				}
+			}
+		}
+	}
+	wrong := 0
+	for w := 0; w < 4; w++ {
+		for i := 0; i < 300; i++ {
+			k := []byte(fmt.Sprintf("load%d_%d_%d", c14LoadSeq, w, i))
+			h, ok := first[bulkArr([]byte("set"), k, []byte("v")).String()]
+			if !ok || h.node != cl.owner[simSlot(k)] {
+				wrong++
+			}
+		}
+	}
+	if wrong == 0 && bad == 0 {
+		return "load:ok"
+	}
+	return fmt.Sprintf("load:%d-not-sent-to-the-owner-first,%d-errors", wrong, bad)
+}
+
+var c14LoadSeq int
+
 func init() {
-	register("c14e2e", func() {
+	register("c14e2et", func() { c14e2eMain(true) })
+	register("c14e2e", func() { c14e2eMain(false) })
+}
+
+func c14e2eMain(triggered bool) {
+	{
 		cases, impl := create("cases.txt"), create("impl.txt")
 		hist := map[string]int{}
 		runLine := func(line string) {
 			fmt.Fprintln(cases, line)
-			fmt.Fprintln(impl, runC14e2e(line))
+			fmt.Fprintln(impl, runC14e2e(line, triggered))
 		}
 		if *fIn != "" {
 			for _, l := range readLines(*fIn) {
@@ -165,9 +287,23 @@ func init() {
 			}
 			reqs()
 			for j, nj := 0, 1+r.intn(4); j < nj; j++ {
-				if len(replicas) > 0 && r.chance(2, 3) {
+				switch {
+				case len(replicas) > 0 && r.chance(1, 2):
 					ops = append(ops, fmt.Sprintf("mr%d,%d", replicas[r.intn(len(replicas))], r.intn(n)))
-				} else {
+				case !triggered && r.chance(1, 3):
+					// a master is unreachable for a while: its replicas must not be given its writes
+					m := r.intn(n)
+					ops = append(ops, fmt.Sprintf("d%d", m))
+					reqs()
+					ops = append(ops, fmt.Sprintf("u%d", m))
+				case r.chance(1, 3):
+					ops = append(ops, fmt.Sprintf("k%d", r.intn(nodes)))
+				case !triggered && r.chance(1, 3):
+					ops = append(ops, "L")
+				default:
+					if triggered {
+						continue // a replica nobody has told the proxy about is simply not used
+					}
 					ops = append(ops, fmt.Sprintf("ar%d", r.intn(n)))
 					replicas = append(replicas, nodes)
 					nodes++
@@ -178,5 +314,5 @@ func init() {
 			runLine(fmt.Sprintf("%d %d %s # %s", strategy, n, c03Layout(r, n), strings.Join(ops, " ")))
 		}
 		writeHist(hist)
-	})
+	}
 }
